@@ -9,9 +9,13 @@
    over larger alphabets, logging every input as structure and every output as data.
 3. TLC (OciScopeTrace) evaluates the set semantics on every logged event and requires each logged
    output to be the model's (direction B).  Verdicts come only from events TLC rejects."""
+import concurrent.futures as cf
 import json
 import os
+import re
+import shutil
 
+import tlaval
 import vlib
 
 MODULE, CFG = 'OciScopeTrace', 'OciScopeTrace.cfg'
@@ -72,6 +76,84 @@ def _sample(trace, n, skip=0):
     return out
 
 
+def _diagnose(ctx, trace):
+    """All rejected lines of an already rejected trace, in one TLC run (Diagnose = TRUE: a rejected
+    event is printed and skipped; events are independent of one another)."""
+    d = ctx.specdir()
+    with open(trace) as f:
+        hdr = json.loads(f.readline())
+    open(os.path.join(d, 'TraceHdr.tla'), 'w').write(tlaval.header_module('TraceHdr', hdr))
+    cfg = vlib.cfg_with(ctx, d, CFG, {'Diagnose': True})
+    r = vlib.run_tlc(ctx, d, MODULE + '.tla', cfg, workers=1, timeout=900, env={'TRACE_FILE': os.path.abspath(trace)})
+    shutil.rmtree(d, ignore_errors=True)
+    if not r['ok']:
+        raise vlib.Machinery('diagnosis run on %s broke:\n%s' % (trace, vlib.tlc_errors(r['out'])))
+    return sorted(set(int(m) for m in re.findall(r'^<<"REJECTED", (\d+)>>$', r['out'], re.M)))
+
+
+def _judge(ctx, traces, shard_lines, label, report=16):
+    """Like vlib.judge_traces, but bounded on a tree where many scenarios are rejected: every shard
+    is validated once with the strict specification; a rejected shard is diagnosed in one more run;
+    up to `report` of the rejected scenarios are then handed, one file each, to vlib.judge_traces
+    (strict re-validation in isolation, known-finding relaxations, replay files, verdict)."""
+    sd = ctx.sub('shards')
+    files = []
+    for t in traces:
+        hdr, scen = vlib.split_scenarios(t)
+        cur, n = [], 0
+        for sc in scen:
+            cur.append(sc)
+            n += len(sc)
+            if n >= shard_lines:
+                files.append((hdr, cur))
+                cur, n = [], 0
+        if cur:
+            files.append((hdr, cur))
+
+    def work(item):
+        i, (hdr, scen) = item
+        p = os.path.join(sd, 'shard%03d.ndjson' % i)
+        vlib.write_trace(p, hdr, scen)
+        r = vlib.validate_trace(ctx, MODULE, CFG, p)
+        if r['accepted']:
+            return len(scen), [], r.get('states', 0)
+        owner = {}
+        line = 2
+        for k, sc in enumerate(scen):
+            for _ in sc:
+                owner[line] = k
+                line += 1
+        lines = _diagnose(ctx, p)
+        if not lines or r['line'] not in lines:
+            raise vlib.Machinery('diagnosis of %s disagrees with the verdict (rejected at line %d, diagnosed %r)' % (p, r['line'], lines[:5]))
+        bad = sorted(set(owner[x] for x in lines))
+        return len(scen) - len(bad), [(hdr, scen[k]) for k in bad], len(owner)
+
+    with cf.ThreadPoolExecutor(max_workers=vlib.NCPU) as ex:
+        results = list(ex.map(work, enumerate(files)))
+    accepted = sum(r[0] for r in results)
+    ctx.cov['traces_validated_against_impl'] += accepted
+    ctx.cov['events_validated'] += sum(r[2] for r in results)
+    rejected = [b for r in results for b in r[1]]
+    ctx.log('%s: %d scenarios accepted, %d rejected' % (label, accepted, len(rejected)))
+    if rejected:
+        ctx.cov['rejected_scenarios'] = len(rejected)
+        # a spread over the shards (the random programs come last)
+        step = max(1, len(rejected) // report)
+        chosen = rejected[::step][:report - 1] + [rejected[-1]]
+        rd = ctx.sub('rejected')
+        paths = []
+        for i, (hdr, sc) in enumerate(chosen):
+            p = os.path.join(rd, 'rej%02d.ndjson' % i)
+            vlib.write_trace(p, hdr, [sc])
+            paths.append(p)
+        before = len(ctx.violations) + len(ctx.known)
+        vlib.judge_traces(ctx, MODULE, CFG, paths, label='%s: %d of the %d rejected scenarios in isolation' % (label, len(paths), len(rejected)))
+        if len(ctx.violations) + len(ctx.known) == before:
+            raise vlib.Machinery('scenarios rejected in their shard were accepted in isolation')
+    return accepted
+
+
 def run(ctx):
     quick = ctx.tier == 'quick'
     # 1. the model
@@ -111,7 +193,7 @@ def run(ctx):
     ctx.log('%d trace lines' % nlines)
     # 3. TLC judges every event
     shard = max(400, min(6000, nlines // vlib.NCPU + 2))
-    vlib.judge_traces(ctx, MODULE, CFG, traces, shard_lines=shard, label='ociauth.Scope vs OciScope')
+    _judge(ctx, traces, shard, 'ociauth.Scope vs OciScope')
     ctx.assumptions += ['byte order and lexical class of the input strings are computed by the harness (Go sort.Strings, strings.Count) and '
                         'handed to TLC as data (TLC cannot compare strings); the specification checks only that the enumeration is injective',
                         'rendering of a field structure to a scope string is done by the harness and re-derived by TLC (string concatenation) for every event',
